@@ -33,9 +33,15 @@ impl Tier {
 
 pub type Counters = BTreeMap<String, u64>;
 
+/// Adds to a counter; keys starting with `max:` keep the maximum instead of the sum.
 pub fn bump(c: &mut Counters, k: &str, by: u64) {
     if by > 0 {
-        *c.entry(k.to_string()).or_insert(0) += by;
+        let e = c.entry(k.to_string()).or_insert(0);
+        if k.starts_with("max:") {
+            *e = (*e).max(by);
+        } else {
+            *e += by;
+        }
     }
 }
 
